@@ -181,9 +181,20 @@ func execute(p *Program, def *propertyDef, tier string, verifDir string) (code i
 		}
 	}()
 	if und != "" {
-		fmt.Printf("UNDECIDED property=%s reason=%s\n", def.ID, und)
-		r.writeEvidence(evPath, und)
-		return 2
+		// a violation found before the analysis had to stop is still a violation: report it (exit 1) and mention the
+		// part that could not be decided; with nothing found the verdict stays UNDECIDED (exit 2)
+		found := false
+		for _, o := range r.Obls {
+			if o.Verdict == "violation" && r.isKnown(o) == nil {
+				found = true
+			}
+		}
+		if !found {
+			fmt.Printf("UNDECIDED property=%s reason=%s\n", def.ID, und)
+			r.writeEvidence(evPath, und)
+			return 2
+		}
+		fmt.Printf("  note: the analysis of %s stopped early (%s); the violations found up to that point are reported\n", def.ID, und)
 	}
 	// verdicts
 	sort.SliceStable(r.Obls, func(i, j int) bool { return r.Obls[i].key() < r.Obls[j].key() })
